@@ -121,13 +121,16 @@ def make_cfg(*, init: str = "Init", next: str = "Next", spec: Optional[str] = No
 def run_tlc(scratch: Scratch, module: str, cfg_text: str, *, tag: str = "", workers: int = 16,
             simulate: Optional[dict] = None, timeout_s: int = 900, env: Optional[dict] = None,
             coverage: bool = False, seed: Optional[int] = None, extra_args: Iterable[str] = (),
-            heap_gb: int = 8, dfs_queue: bool = False, expect_violation: bool = False) -> TLCResult:
+            heap_gb: int = 8, dfs_queue: bool = False, expect_violation: bool = False,
+            extra_files: Optional[dict] = None) -> TLCResult:
     """Run TLC on spec/<module>.tla with the given cfg text.  Returns statistics; raises MachineryError
     on parse errors, crashes and timeouts (never on invariant violations, which are reported)."""
     tag = tag or module
     work = scratch.sub(f"tlc_{tag}")
     for f in SPEC_DIR.glob("*.tla"):
         shutil.copy(f, work / f.name)
+    for name, text in (extra_files or {}).items():
+        (work / name).write_text(text)
     cfg_path = work / f"{tag}.cfg"
     cfg_path.write_text(cfg_text)
     out_path = work / f"{tag}.out"
